@@ -753,8 +753,10 @@ def run(tier, replay):
         for x in recs[:2]:
             ctx.sample({"random": describe(x), "observed": json_text(x["obs"])})
 
-        # binding self-test: one altered observation must be rejected by TLC (DESIGN 3.1)
-        good = [] if replay else ([x for x in recs if x["kind"] == "map" and x["panic"] == "" and x["obs"]["c"]][:1] +
+        # binding self-test: one altered observation must be rejected by TLC (DESIGN 3.1); it presumes a clean run
+        # (on a tree with unexplained mismatches the picked "good" records need not be good)
+        unexplained = [f for f in findings if f[2] is None]
+        good = [] if (replay or unexplained) else ([x for x in recs if x["kind"] == "map" and x["panic"] == "" and x["obs"]["c"]][:1] +
                                   [x for x in recs if x["kind"] == "lit" and x["obs"]["c"]][:1])
         bad = []
         for x in good:
